@@ -35,6 +35,7 @@ REQUIRED = {"template[synthetic-unit-filled]": 10,
             "template[synthetic-thin]": 10, "decodes_judged": 500,
             "witness_layouts_judged": 400,
             "hardness_evaluations": 10, "fresh_process_references": 4,
+            "hardness_iterable_executors": 6,
             "decodes_from_a_reused_point_buffer": 50,
             "hardness_sibling_histories": 2, "errors_of_template_zero": 5,
             "extreme_value_vectors": 100}
@@ -505,6 +506,29 @@ def hardness(ctx, tcase):
                     f"Hardness({fes}, {runs}) = {v1!r} in this process, "
                     f"{vf!r} as the first evaluation of a fresh process",
                     case)
+    # the set-ups handed over as a one-shot iterable and as a list the
+    # caller goes on using: `executors` is declared an Iterable
+    from moptipyapps.binpacking2d.instgen.hardness import DEFAULT_EXECUTORS
+    sub = [DEFAULT_EXECUTORS[int(i)] for i in rng.permutation(
+        len(DEFAULT_EXECUTORS))[:int(rng.integers(1, 4))]]
+    ref = Hardness(fes, runs, tuple(sub)).evaluate(inst)
+    mine = list(sub)
+    for how, hx in (("generator", Hardness(fes, runs, (e for e in sub))),
+                    ("list", Hardness(fes, runs, mine))):
+        if how == "list":
+            mine.reverse()
+            mine.append(DEFAULT_EXECUTORS[0])
+        try:
+            g1 = hx.evaluate(inst)
+            g2 = hx.evaluate([inst])
+        except ZeroDivisionError as e:
+            g1 = g2 = f"raised {e!r}"
+        ctx.count("hardness_iterable_executors")
+        if not (g1 == g2 == ref):
+            ctx.violation(
+                "hardness-depends-on-callers-iterable",
+                f"executors given as a {how}: {g1!r}, then {g2!r}; the same "
+                f"set-ups as a tuple: {ref!r}", {**case, "how": how})
     eh = ErrorsAndHardness(sp, fes, runs)
     w1 = eh.evaluate([inst])
     w2 = eh.evaluate([inst])
